@@ -8,7 +8,7 @@ evaluated over the instantiation-aware call graph rooted at the public API.
 """
 import os, re
 from ..common import PUBLIC_ENTRIES, STD_CRATES, macro_names, in_std_macro, in_derive, strip_generics
-from ..facts import AnchorMissing
+from ..facts import AnchorMissing, callee_def
 from .. import flow, lazy
 
 # (b)/(d): callee-name deny list. name = instance name with generic arguments stripped.
@@ -110,7 +110,39 @@ def run(ctx, rep):
     # static's allocation edge and is scanned by S2..S4 like every other function; S1 decides whether the static qualifies.
     LZ = lazy.lazy_statics(F)
     cut = [i["id"] for i in F.instances if lazy.is_force_instance(i["name"])]
-    parent = F.reach(roots, cut=cut)
+    # A clock read whose value only ever reaches the formatting machinery (timing printed under a log level) cannot
+    # influence a result; such call edges are not followed.  Anything else done with the time value keeps the edge.
+    skip_edges = set()
+    for I in F.instances:
+        if not I.get("local"):
+            continue
+        body = F.bodies.get(I["def"])
+        if body is None:
+            continue
+        for bb, c in I.get("calls", []):
+            if isinstance(c, int) and bb < body.n and re.match(r"^std::time::(Instant|SystemTime)::(now|elapsed|duration_since)$", strip_generics(F.inst(c)["name"])):
+                t = body.term(bb)
+                if t["k"] == "call" and t.get("dest") and not t["dest"]["p"] and _only_printed(body, t["dest"]["l"]):
+                    skip_edges.add((I["id"], bb))
+    parent = {}
+    from collections import deque as _dq
+    dq = _dq()
+    for r0 in roots:
+        if r0 not in parent:
+            parent[r0] = None
+            dq.append(r0)
+    cutset = set(cut)
+    while dq:
+        x = dq.popleft()
+        if x in cutset:
+            continue
+        X = F.inst(x)
+        nxt = [c for bb, c in X.get("calls", []) if isinstance(c, int) and (x, bb) not in skip_edges] + list(X.get("edges", []))
+        for y in nxt:
+            if y not in parent:
+                parent[y] = x
+                dq.append(y)
+    rep.stats["clock_reads_only_printed"] = len(skip_edges)
     rep.stats["lazy_statics"] = {k: v["init"] or v["why"] for k, v in LZ.items()}
     rep.stats["instances_reachable"] = len(parent)
     rep.stats["instances_local"] = sum(1 for i in parent if F.inst(i)["local"])
@@ -315,6 +347,46 @@ def run(ctx, rep):
         ffi = e.startswith("preflate_rs::Wrapper")
         bad = re.search(r"\b(Rc|RefCell|Cell|UnsafeCell|Mutex|Arc)\b", sig) or (("*mut" in sig or "*const" in sig) and not ffi) or "&'static mut" in sig
         rep.add("S7", "signature:" + e, not bad, "%s:%s" % (b.file, b.line), sig)
+
+
+_TIME_FN = re.compile(r"^std::time::|^core::time::|^<std::time::|^<core::time::|fmt::|Debug>::fmt|Display>::fmt")
+
+
+def _only_printed(b, local, depth=0):
+    """The value (and everything computed from it by time arithmetic) ends in formatting calls only."""
+    if depth > 8:
+        return False
+    us = flow.uses(b, local)
+    if not us:
+        return True
+    for u in us:
+        if u[0] == "stmt":
+            s = u[3]
+            if s["k"] != "assign":
+                continue
+            r = s["r"]
+            if s["p"]["p"]:
+                return False
+            if r["k"] in ("use", "ref", "cast") or (r["k"] == "agg" and r.get("ak") in ("array", "tuple")):
+                if not _only_printed(b, s["p"]["l"], depth + 1):
+                    return False
+            else:
+                return False
+        else:
+            t = u[2]
+            if t["k"] == "drop":
+                continue
+            if t["k"] != "call":
+                return False
+            n = callee_def(t)
+            if re.search(r"core::fmt::rt::Argument|fmt::Arguments|std::io::_print|std::io::_eprint", n):
+                continue
+            if _TIME_FN.search(strip_generics(n)) and t.get("dest") and not t["dest"]["p"]:
+                if not _only_printed(b, t["dest"]["l"], depth + 1):
+                    return False
+                continue
+            return False
+    return True
 
 
 def _plain_data(ty, F, depth):
